@@ -42,6 +42,12 @@ def run(ctx, chk):
         m = ctx.sentmodel(cfg)
         ok_paths = [p for p in m.paths if p.grammar_ok]
         chk.ob(len(ok_paths) >= 8, "C08/no-success-paths/%s/%d" % (cfg, len(ok_paths)), "only %d paths get past the sentence grammar [%s]" % (len(ok_paths), cfg))
+        # acceptance must be a matter of the regular grammar alone: a path past the grammar that has
+        # assumed "this part of the line is valid UTF-8" rejects the same shape with other bytes
+        # (`map_res(take_until(","), from_utf8)` on a field whose bytes are otherwise free)
+        dep = sorted(set(repr(k)[:120] for p in ok_paths for k, v in p.st.pc.opq.items() if isinstance(k, tuple) and k and k[0] == "utf8ok" and "'L'" in repr(k) and v is True))
+        chk.ob(not dep, "C08/utf8-dependent/%d" % len(dep), "sentences are accepted [%s] only if a free field of the line is valid UTF-8 (%s): lines of the same shape with bytes >= 0x80 there are rejected" % (cfg, dep[:1]),
+               sample={"acceptance_depends_on_utf8_validity": False})
         # distinct grammar shapes
         shapes = {}
         for p in ok_paths:
